@@ -877,6 +877,15 @@ func (e *Enc) evalCall(n *SCall, ctx *SpecCtx) (SV, error) {
 		}
 		c2 := ctx.withState(ctx.old)
 		return e.evalSpec(n.Args[0], c2)
+	case "entry":
+		// entry(e): e's heap and ghost reads in the entry state of the function under verification,
+		// also from a loop invariant of a callee that was expanded in place (where old() is the
+		// callee's own entry)
+		if e.topFrame == nil || e.topFrame.entry == nil {
+			return SV{}, fmt.Errorf("entry() not available here")
+		}
+		c2 := ctx.withState(e.topFrame.entry)
+		return e.evalSpec(n.Args[0], c2)
 	case "len":
 		v, err := arg(0)
 		if err != nil {
